@@ -12,6 +12,13 @@ type ssaFn = ssa.Function
 
 func debugDump(w *World, what string, args []string) {
 	switch what {
+	case "ctlbounds":
+		cw, err := controlWorld("/verif")
+		if err != nil {
+			fmt.Println(err)
+			return
+		}
+		debugBounds(cw, args)
 	case "memokey":
 		r := NewReport("C06", "quick", "/tmp/dbg")
 		r.W = w
